@@ -46,6 +46,9 @@ import (
 //          every table – association and join tables included – refuses the n-th inserted / updated / deleted row),
 //          mech "poison" (the n-th record of the graph carries a value refused by a CHECK / NOT NULL constraint)
 //
+//   encl   the ENCLOSING CONTEXT of the write (round 4): own suite `enclosed`, c05_encl.go – the caller continues in his
+//          transaction after the failed write and commits; `where` above only covers callers that roll back
+//
 // Oracle (only what the property text states):
 //   * an injected failure of BEGIN / a statement / COMMIT must surface in the returned error (text of the
 //     injected value contained in err.Error() – AddError joins several errors textually);
